@@ -231,6 +231,65 @@ type verifFault struct {
 
 type verifCrash struct{}
 
+// hook counters (verifSink is installed once per process; worlds are sequential)
+var verifUsersUpdRecv, verifUsersIOStart, verifUsersIORecv int64
+
+func verifSinkFn(ev string, args ...any) {
+	switch ev {
+	case "users.upd.recv":
+		atomic.AddInt64(&verifUsersUpdRecv, 1)
+	case "users.io.start":
+		atomic.AddInt64(&verifUsersIOStart, 1)
+	case "users.io.recv":
+		atomic.AddInt64(&verifUsersIORecv, 1)
+	}
+	if verifExtraSink != nil {
+		verifExtraSink(ev, args...)
+	}
+}
+
+var verifExtraSink func(ev string, args ...any)
+
+// usersBarrier: the user-cache goroutine is sequential; when it has RECEIVED a later request it has finished the
+// earlier ones. Returns false on timeout.
+func (w *verifWorld) usersBarrier() bool {
+	deadline := time.Now().Add(time.Second)
+	for len(globals.usersUpdate) != 0 {
+		if time.Now().After(deadline) {
+			return false
+		}
+		time.Sleep(20 * time.Microsecond)
+	}
+	before := atomic.LoadInt64(&verifUsersUpdRecv)
+	select {
+	case globals.usersUpdate <- &UserCacheReq{UserId: types.Uid(0x7fffffffffff), Gone: true}:
+	default:
+		return false
+	}
+	for atomic.LoadInt64(&verifUsersUpdRecv) <= before {
+		if time.Now().After(deadline) {
+			return false
+		}
+		time.Sleep(20 * time.Microsecond)
+	}
+	return true
+}
+
+// usersQuiet: no unread-count IO in flight and everything queued so far has been processed (pushes handed to the handlers).
+func (w *verifWorld) usersQuiet() bool {
+	for i := 0; i < 3; i++ {
+		if !w.usersBarrier() {
+			return false
+		}
+		if atomic.LoadInt64(&verifUsersIOStart) != atomic.LoadInt64(&verifUsersIORecv) {
+			time.Sleep(50 * time.Microsecond)
+			return false
+		}
+	}
+	// one more barrier: the processing of the last received IO result is complete once a later request is received
+	return w.usersBarrier() && len(verifPush.ch) == 0
+}
+
 var verifWorldSeq int
 
 func verifNewWorld(t testing.TB, cfg verifConfig, keepStore bool) *verifWorld {
@@ -275,6 +334,7 @@ func verifNewWorld(t testing.TB, cfg verifConfig, keepStore bool) *verifWorld {
 	h.join <- &ClientComMessage{RcptTo: "sys", Original: "sys"}
 	w.probe = w.rawSession("probe", "")
 	memadp.Hook = w.adapterHook
+	verifSink = verifSinkFn
 	return w
 }
 
@@ -335,8 +395,14 @@ func (w *verifWorld) close() {
 		}
 	case <-time.After(3 * time.Second):
 	}
-	usersShutdown()
 	globals.shuttingDown = false
+	// The user-cache goroutine nils the GLOBAL channel when it sees the shutdown request: wait for that to happen
+	// before the next world installs its own channel.
+	old := globals.usersUpdate
+	usersShutdown()
+	for i := 0; i < 20000 && globals.usersUpdate != nil && globals.usersUpdate == old; i++ {
+		time.Sleep(50 * time.Microsecond)
+	}
 }
 
 // abandon = crash: nothing is told anything; goroutines of the old world are left to die with their hub.
@@ -511,7 +577,7 @@ func (w *verifWorld) quiesce() error {
 		after := w.frameCount()
 		_ = before
 		_ = after
-		if !w.chansEmpty() {
+		if !w.usersQuiet() || !w.chansEmpty() {
 			stable = 0
 			continue
 		}
